@@ -32,10 +32,61 @@ class InitBoom(Exception):
     pass
 
 
+def _state_attrs(holder):
+    import types
+    for name in sorted(vars(holder)):
+        if name.startswith("__") and name.endswith("__"):
+            continue
+        val = vars(holder)[name]
+        if isinstance(val, (types.FunctionType, types.MethodType, classmethod, staticmethod, property)):
+            continue
+        if callable(val) and not isinstance(val, type):
+            continue
+        yield name, val
+
+
+_PRISTINE = {}
+
+
+def _restore_in_place(val, pristine):
+    import copy
+    if isinstance(val, dict):
+        val.clear()
+        val.update(copy.deepcopy(pristine))
+    elif isinstance(val, list):
+        val[:] = copy.deepcopy(pristine)
+    elif isinstance(val, set):
+        val.clear()
+        val.update(copy.deepcopy(pristine))
+    elif hasattr(val, "__dict__"):
+        fresh = copy.deepcopy(pristine)
+        vars(val).clear()
+        vars(val).update(vars(fresh))
+    else:
+        return False
+    return True
+
+
 def _reset_true_singleton_state():
-    for name, val in list(vars(S.TrueSingleton).items()):
-        if isinstance(val, dict) and not name.startswith("__"):
-            val.clear()
+    """
+    Bring the registry of the TrueSingleton metaclass back to what it was when this module was
+    imported (no class has an instance), whatever its private representation is: a dict, or a helper
+    object holding one.  Done in place where possible, otherwise by re-binding the attribute.
+    """
+    import copy
+    for name, val in list(_state_attrs(S.TrueSingleton)):
+        if name not in _PRISTINE:
+            try:
+                _PRISTINE[name] = copy.deepcopy(val)     # first sight = import time = empty registry
+            except Exception:  # noqa: BLE001
+                _PRISTINE[name] = None
+        if _PRISTINE[name] is None:
+            continue
+        if not _restore_in_place(val, _PRISTINE[name]):
+            setattr(S.TrueSingleton, name, copy.deepcopy(_PRISTINE[name]))
+
+
+_reset_true_singleton_state()      # records the pristine registry before any class exists
 
 
 class World:
@@ -102,7 +153,17 @@ def real_state(w):
             return ("set",) + tuple(sorted(repr(cv(e)) for e in x))
         if any(isinstance(x, c) for c in w.cls):
             return ("inst", type(x).__name__, getattr(x, "init_count", None))
+        if hasattr(x, "__dict__") and not isinstance(x, (types.FunctionType, types.ModuleType)):
+            if id(x) in stack:
+                return ("cycle", type(x).__name__)
+            stack.append(id(x))
+            try:
+                return ("obj", type(x).__name__) + tuple((k, cv(v)) for k, v in sorted(vars(x).items()))
+            finally:
+                stack.pop()
         return ("other", type(x).__name__)
+
+    stack = []
 
     out = []
     # the metaclass itself and every class of the pool (a class may shadow the registry privately)
@@ -116,17 +177,28 @@ def real_state(w):
             if callable(val) and not isinstance(val, type):
                 continue
             out.append((hname, name, cv(val)))
-    return tuple(out)
+    # plus the reference model (which classes have a live instance): states with different live
+    # classes are different states whatever the library's private representation lets this walk see
+    return (tuple(out), tuple(m is not None for m in w.model))
 
 
-def live_classes(w):
-    """names of the pool classes that have an entry in some dict attribute of the metaclass"""
-    live = set()
-    for name, val in vars(S.TrueSingleton).items():
-        if isinstance(val, dict) and not (name.startswith("__") and name.endswith("__")):
-            for k in val:
-                if k in w.cls:
-                    live.add(w.names[w.cls.index(k)])
+def live_classes(system, hist):
+    """
+    Which classes have a live instance after `hist`, found out by behaviour: on a world re-built from
+    the history (one per class, the probe changes the state), construct the class without arguments;
+    it has a live instance exactly when no __init__ runs.
+    """
+    live = []
+    n = len(system.initial().cls)
+    for c in range(n):
+        w2 = engine_h.build(system, hist)
+        before = w2.total_inits
+        try:
+            w2.cls[c]()
+        except Exception:  # noqa: BLE001
+            pass
+        if w2.total_inits == before:
+            live.append(w2.names[c])
     return sorted(live)
 
 
@@ -139,6 +211,7 @@ class Sys:
 
     def __init__(self, spec):
         self.spec = spec
+        self.current_history = ()
 
     def initial(self):
         return World(self.spec)
@@ -226,9 +299,9 @@ class Sys:
 
     def check(self, pre, op, post, obs):
         bad = list(post.step_bad)
-        # the real table must hold exactly the model's live classes
+        # exactly the model's live classes must answer a construction without running __init__
         live_model = sorted(post.names[i] for i, m in enumerate(post.model) if m is not None)
-        if live_classes(post) != live_model:
+        if live_classes(self, tuple(self.current_history) + (op,)) != live_model:
             bad.append("live-classes-differ-from-model")
         if not bad:
             return []
@@ -256,6 +329,7 @@ def replay(rec, verbose=False):
     pre.model = list(w.model)
     pre.names = list(w.names)
     obs = s.apply(w, hist[-1])
+    s.current_history = tuple(hist[:-1])
     bad = s.check(pre, hist[-1], w, obs)
     if verbose:
         print("  history:", hist)
@@ -272,7 +346,7 @@ def run(tier, seed, log):
     exhaustive = True
     for spec in POOLS[tier]:
         log(f"[{PROP}] pool {spec}")
-        res = engine_h.explore(Sys(spec), seed=seed, log=log, workers=1 if tier == "quick" else None)
+        res = engine_h.explore(Sys(spec), seed=seed, log=log)
         for fp, (n, rec) in res.viols.items():
             rec = dict(rec)
             rec["pool"] = spec
@@ -298,5 +372,6 @@ def run(tier, seed, log):
         "distinct_observed_outcomes": tot["outcomes"], "samples": samples,
     }
     rep.assumptions = ["bounded pool of classes (a subclass, a nested constructor) and argument shapes",
-                       "states merged on the real TrueSingleton table (class -> instance type, init count)"]
+                       "states merged on every attribute of the TrueSingleton metaclass and of the pool classes (helper objects "
+                       "are walked through their attributes) together with the model's set of live classes"]
     return rep.finish(confirm=replay)
